@@ -392,6 +392,13 @@ func RunParent(id, tier string, seed uint64, self, selfRace string, replay *Viol
 		exit = 1
 		os.MkdirAll(filepath.Join(VerifDir(), "replays"), 0755)
 		// de-duplicate by key for printing; all are in the file
+		total := map[string]int{}
+		for _, v := range real {
+			total[v.Key]++
+		}
+		for k, n := range total {
+			fmt.Printf("  violations with key %s: %d\n", k, n)
+		}
 		byKey := map[string]int{}
 		for i, v := range real {
 			byKey[v.Key]++
